@@ -99,9 +99,10 @@ def shlPos (w n : Nat) (a : List Nat) (s : Nat) : List Nat :=
     if s ≥ w && s1 == 0 then maskMSU w n a1
     else maskMSU w n (shlBits w s1 0 a1)
 
-/-- `operator>>=` for a positive count (integer_impl.hpp:500-569): `>= nbits ⇒ setzero` as it is (defect D8) -/
+/-- `operator>>=` for a positive count (integer_impl.hpp:500-574). A count `>= nbits` saturates to the sign fill:
+    `negative = sign(); setzero(); if (negative) for (i < nbits) setbit(i);` (repaired in 11c577e, was defect D8) -/
 def shrPos (w n : Nat) (a : List Nat) (s : Nat) : List Nat :=
-  if s ≥ n then zeros a.length
+  if s ≥ n then (if sign w n a then setRange w (zeros a.length) 0 n true else zeros a.length)
   else
     let signext := sign w n a
     let bs := if s ≥ w then s / w else 0
